@@ -7,6 +7,7 @@
 //!   mul <engine> <log_m> <hex of blocks>
 //!   encode <rate> <engine> <k> <r> <shard_bytes> <hex of k originals concatenated>
 //!   decode <rate> <engine> <k> <r> <shard_bytes> <n> (<o|r> <index> <hex>)*n
+//!   supports <default|high|low> <original_count> <recovery_count>
 //!   evalpoly <engine> <trunc> <n> (<index>)*n <m> (<query index>)*m
 //! Output: one line per command: "ok <hex or values>" or "err <Debug of error>".
 use reed_solomon_simd::engine::{self, tables, Engine, Naive, NoSimd, ShardsRefMut, GF_ORDER};
@@ -205,6 +206,16 @@ fn main() {
                     "low" => run_dec::<LowRateDecoder<_>, _>(e, k, r, sb, &shards),
                     _ => run_dec::<DefaultRateDecoder<_>, _>(e, k, r, sb, &shards),
                 })
+            }
+            "supports" => {
+                use reed_solomon_simd::rate::{DefaultRate, HighRate, LowRate, Rate};
+                let (o, r) = (n(2), n(3));
+                let b = match t[1] {
+                    "high" => HighRate::<NoSimd>::supports(o, r),
+                    "low" => LowRate::<NoSimd>::supports(o, r),
+                    _ => DefaultRate::<NoSimd>::supports(o, r),
+                };
+                format!("ok {b}")
             }
             "evalpoly" => {
                 let trunc = n(2);
